@@ -122,7 +122,9 @@ func CheckTape(pj *simdjson.ParsedJson, allowNop bool) error {
 		if isKey && tag != '"' {
 			return fmt.Errorf("tape[%d]: object key position holds tag %q", i, tag)
 		}
-		if f.kind == 'r' && tag != '{' && tag != '[' && !(allowNop && tag == 'n') {
+		if f.kind == 'r' && tag != '{' && tag != '[' && !allowNop {
+			// the parser only accepts objects and arrays at the top level; an edited tape may hold a scalar there
+			// (SetNull on the top-level container, then SetBool on that null), which the format does not forbid
 			return fmt.Errorf("tape[%d]: root holds tag %q, expected object or array", i, tag)
 		}
 		adv := 1
